@@ -75,6 +75,9 @@ func main() {
 	ck.fn(c)
 	if cpuSubrunIDs[id] && os.Getenv("VERIF_SUBRUN") == "" {
 		cpuSubrun(c, id)
+		if b386 := os.Getenv("VERIF_BIN_386"); b386 != "" && (cheap386[id] || c.Thorough()) {
+			subrun(c, id, "GOARCH=386", []string{b386, id, c.Tier})
+		}
 	}
 	os.Exit(c.Finish())
 }
@@ -83,6 +86,9 @@ func main() {
 // CPUs (runtime.NumCPU() = 3, 5, 6 or 7 by seed): results must not depend on the machine's CPU count.
 var cpuSubrunIDs = map[string]bool{"C01": true, "C02": true, "C03": true, "C04": true, "C05": true, "C06": true, "C11": true, "C12": true, "C15": true, "C16": true, "C17": true, "C19": true}
 
+// the 32-bit subrun is part of the quick tier only for the checks where it costs a few seconds
+var cheap386 = map[string]bool{"C01": true, "C02": true, "C03": true, "C04": true, "C11": true, "C12": true, "C17": true}
+
 func cpuSubrun(c *ev.Ctx, id string) {
 	cpus := []int{3, 6, 5, 7}[int(uint64(c.Seed)%4)]
 	if runtime.NumCPU() <= cpus {
@@ -90,14 +96,28 @@ func cpuSubrun(c *ev.Ctx, id string) {
 		return
 	}
 	bin := os.Getenv("VERIF_BIN")
-	work := os.Getenv("VERIF_WORK")
-	if bin == "" || work == "" {
+	if bin == "" {
 		c.Note("cpu_count_subrun", "skipped: harness binary path not set")
 		return
 	}
-	out := filepath.Join(work, "sub")
+	subrun(c, id, fmt.Sprintf("NumCPU=%d", cpus), []string{"taskset", "-c", fmt.Sprintf("0-%d", cpus-1), bin, id, c.Tier})
+}
+
+// subrun re-runs the check, thinned, in a child under another configuration and folds its verdicts in.
+func subrun(c *ev.Ctx, id, what string, argv []string) {
+	work := os.Getenv("VERIF_WORK")
+	if work == "" {
+		return
+	}
+	cpus := what
+	out := filepath.Join(work, "sub-"+strings.Map(func(r rune) rune {
+		if r == '=' || r == ' ' {
+			return '_'
+		}
+		return r
+	}, what))
 	_ = os.MkdirAll(out, 0o755)
-	cmd := exec.Command("taskset", "-c", fmt.Sprintf("0-%d", cpus-1), bin, id, c.Tier)
+	cmd := exec.Command(argv[0], argv[1:]...)
 	cmd.Env = append(os.Environ(), "VERIF_SUBRUN=1", "VERIF_LITE=1", "VERIF_OUT="+out)
 	b, err := cmd.Output()
 	lines := strings.Split(string(b), "\n")
@@ -109,23 +129,23 @@ func cpuSubrun(c *ev.Ctx, id string) {
 				detail = strings.TrimSpace(lines[i+1])
 			}
 			nv++
-			c.Violation(fmt.Sprintf("numcpu=%d:%s", cpus, clipS(detail, 120)), fmt.Sprintf("with runtime.NumCPU()=%d (taskset): %s", cpus, detail), "subrun", map[string]interface{}{"cpus": cpus, "detail": detail})
+			c.Violation(fmt.Sprintf("%s:%s", cpus, clipS(detail, 120)), fmt.Sprintf("under %s: %s", cpus, detail), "subrun", map[string]interface{}{"configuration": cpus, "detail": detail})
 		}
 		if strings.HasPrefix(ln, "SUMMARY ") {
 			var ev2, dn int
 			if k := strings.Index(ln, "evaluations="); k >= 0 {
 				fmt.Sscanf(ln[k:], "evaluations=%d distinct_nontrivial=%d", &ev2, &dn)
 			}
-			c.Count(fmt.Sprintf("evaluations_repeated_with_NumCPU=%d", cpus), int64(ev2))
+			c.Count("evaluations_repeated_under_"+cpus, int64(ev2))
 		}
 	}
 	if err != nil && nv == 0 {
 		if ee, ok := err.(*exec.ExitError); ok && ee.ExitCode() == 3 {
-			c.Note("cpu_count_subrun", "child could not decide (exit 3)")
+			c.Note("subrun_"+cpus, "child could not decide (exit 3)")
 		} else if ee, ok := err.(*exec.ExitError); ok && ee.ExitCode() == 1 {
-			c.Violation(fmt.Sprintf("numcpu=%d:unparsed", cpus), "child reported a violation: "+clipS(string(b), 800), "subrun", cpus)
+			c.Violation(cpus+":unparsed", "child reported a violation: "+clipS(string(b), 800), "subrun", cpus)
 		} else {
-			c.Inconclusive(fmt.Sprintf("CPU-count subrun failed to run: %v", err))
+			c.Inconclusive(fmt.Sprintf("subrun under %s failed to run: %v", cpus, err))
 		}
 	}
 }
